@@ -3,6 +3,7 @@ package vegeta
 import (
 	"fmt"
 	"math"
+	"math/bits"
 	"time"
 )
 
@@ -62,6 +63,22 @@ func (cp ConstantPacer) Pace(elapsed time.Duration, hits uint64) (time.Duration,
 		return 0, false
 	}
 	interval := uint64(cp.Per.Nanoseconds() / int64(cp.Freq))
+	if interval == 0 {
+		// More than one hit per nanosecond: the integer interval is zero, so
+		// compute when the next hit is due as ceil((hits+1) * Per / Freq).
+		hi, lo := bits.Mul64(hits+1, uint64(cp.Per))
+		if hits == math.MaxUint64 || hi >= uint64(cp.Freq) {
+			return 0, true // Would overflow, stop the attack.
+		}
+		due, rem := bits.Div64(hi, lo, uint64(cp.Freq))
+		if rem > 0 {
+			due++
+		}
+		if due > math.MaxInt64 {
+			return 0, true
+		}
+		return time.Duration(due) - elapsed, false
+	}
 	if math.MaxInt64/interval < hits {
 		// We would overflow delta if we continued, so stop the attack.
 		return 0, true
